@@ -572,18 +572,42 @@ def main(prop, tier, replay_path=None):
         def pred(c, _sig=sig):
             return _sig in _replay_failures(mod, c)
 
-        try:
-            if pred(case):
-                shr = getattr(mod, "shrink", None)
-                if shr:
-                    case = shr(case, pred)
+        def _shrink_job(conn, case=case, pred=pred, sig=sig, f0=f0):
+            try:
+                if pred(case):
+                    shr = getattr(mod, "shrink", None)
+                    if shr:
+                        case = shr(case, pred)
+                    else:
+                        case = shrink_value(case, pred, budget_s=15.0)
+                    detail = _replay_failures(mod, case)[sig][1][0]["detail"]
                 else:
-                    case = shrink_value(case, pred, budget_s=15.0)
-                detail = _replay_failures(mod, case)[sig][1][0]["detail"]
-            else:
-                detail = f0["detail"] + " [did not reproduce in replay: reported unshrunk]"
-        except Exception:
-            detail = f0["detail"] + " [shrink error: %s]" % traceback.format_exc(limit=1)
+                    detail = f0["detail"] + " [did not reproduce in replay: reported unshrunk]"
+            except Exception:
+                detail = f0["detail"] + " [shrink error: %s]" % traceback.format_exc(limit=1)
+            try:
+                conn.send((case, detail))
+            except Exception:  # noqa: BLE001
+                pass
+
+        # replaying / shrinking runs the code under test again: do it in a child with a wall-clock limit, so that a failure whose
+        # replay hangs or explodes (state left behind by the defect itself) is still reported, unshrunk
+        import multiprocessing as _mp
+        ctx = _mp.get_context("fork")
+        parent_conn, child_conn = ctx.Pipe(duplex=False)
+        proc = ctx.Process(target=_shrink_job, args=(child_conn,))
+        proc.start()
+        child_conn.close()
+        detail = f0["detail"] + " [replay / shrink did not finish within 90 s: reported unshrunk]"
+        if parent_conn.poll(90):
+            try:
+                case, detail = parent_conn.recv()
+            except Exception:  # noqa: BLE001
+                pass
+        proc.join(1)
+        if proc.is_alive():
+            proc.kill()
+            proc.join(5)
         os.makedirs(rdir, exist_ok=True)
         path = os.path.join(rdir, "%016x.json" % h64(sig, case))
         with open(path, "w", encoding="utf-8") as f:
